@@ -109,15 +109,23 @@ class _PlatypusJSONDecoder(json.JSONDecoder):
     def __init__(self, problem=None, *args, **kwargs):
         super().__init__(object_hook=self.object_hook, *args, **kwargs)
         self.problem = problem
+        self.placeholder = problem is None
 
     def object_hook(self, d):
         if "problem" in d and "result" in d:
-            if self.problem is None:
+            if self.placeholder:
+                # nested solutions are decoded first (against a placeholder), so
+                # rebuild the problem from the saved definition and re-attach them
                 self.problem = Problem(int(d["problem"]["nvars"]),
                                        int(d["problem"]["nobjs"]),
                                        int(d["problem"]["nconstrs"]))
                 self.problem.directions[:] = d["problem"]["directions"]
                 self.problem.constraints[:] = d["problem"]["constraints"]
+
+                for solution in d["result"]:
+                    solution.problem = self.problem
+                    solution.constraint_violation = sum([abs(f(x)) for (f, x) in zip(self.problem.constraints, solution.constraints)])
+                    solution.feasible = solution.constraint_violation == 0.0
 
             return d["result"]
 
